@@ -251,4 +251,4 @@ def run(pid, tier, seed):
     missing = [f for f in fams if not (camp.counters.get("valid:" + f) or camp.counters.get("malformed:" + f.split(":")[0]))]
     if missing:
         raise core.HarnessError("families without any member: %s" % missing)
-    return core.finish(pid, tier, seed, camp, RULE, t0, assumptions=["digit strings longer than the bound are not covered", "seed-independent: the enumeration is complete over the bound"])
+    return core.finish(pid, tier, seed, camp, RULE, t0, replay_fn=replay, assumptions=["digit strings longer than the bound are not covered", "seed-independent: the enumeration is complete over the bound"])
